@@ -117,6 +117,8 @@ enum ConnCmd {
     SendKs(Vec<u8>, String),
     SendThenClose(Vec<u8>, bool),
     Close(bool),
+    /// stop reading from the socket (it stays open): the peer's writes back up
+    Deafen,
 }
 
 struct ConnHandle {
@@ -344,6 +346,19 @@ impl MockCluster {
         self.inner.muted.lock().unwrap().insert(conn);
     }
 
+    /// Every connection currently open to `node` stops reading (and answering); the sockets stay open.
+    /// Returns how many connections were told so. Connections opened later behave normally.
+    pub fn deafen_node(&self, node: usize) -> usize {
+        let conns = self.inner.conns.lock().unwrap();
+        let mut n = 0;
+        for h in conns.values().filter(|h| h.node == node) {
+            if h.tx.send(ConnCmd::Deafen).is_ok() {
+                n += 1;
+            }
+        }
+        n
+    }
+
     /// Where a held request sits: (connection id, stream id).
     pub fn held_location(&self, hold_id: u64) -> Option<(u64, i16)> {
         self.inner.held.lock().unwrap().get(&hold_id).copied()
@@ -454,6 +469,7 @@ async fn connection(inner: Arc<Inner>, node: usize, mut stream: TcpStream, peer:
     let mut buf: Vec<u8> = Vec::with_capacity(8192);
     let mut tmp = vec![0u8; 65536];
     let mut close_rst: Option<bool> = None;
+    let mut deaf = false;
     'outer: loop {
         tokio::select! {
             cmd = rx.recv() => {
@@ -482,9 +498,10 @@ async fn connection(inner: Arc<Inner>, node: usize, mut stream: TcpStream, peer:
                         break 'outer;
                     }
                     Some(ConnCmd::Close(rst)) => { close_rst = Some(rst); break 'outer; }
+                    Some(ConnCmd::Deafen) => { deaf = true; }
                 }
             }
-            n = stream.read(&mut tmp) => {
+            n = stream.read(&mut tmp), if !deaf => {
                 let n = match n { Ok(0) | Err(_) => break 'outer, Ok(n) => n };
                 buf.extend_from_slice(&tmp[..n]);
                 loop {
